@@ -1628,10 +1628,14 @@ func (e *Entry) dup() *Entry {
 		}
 	}
 
+	// The copy gets slices of its own: merge appends the statements of
+	// a uses or augment to them, which would otherwise write into the
+	// spare capacity that all copies of e share.
 	ne.Extra = make(map[string][]interface{})
 	for k, v := range e.Extra {
-		ne.Extra[k] = v
+		ne.Extra[k] = append([]interface{}(nil), v...)
 	}
+	ne.Exts = append([]*Statement(nil), e.Exts...)
 
 	return &ne
 }
